@@ -133,6 +133,30 @@ def deferred_reads(ctx, L, cases):
         batch = []
 
 
+def stream_containers(ctx, L, case):
+    """A fault in an early message of a stream, the stream handed over as bytes and in every container: whatever the front
+    end, the error accounts for the whole carried input - the messages behind the faulty one are its remaining bytes."""
+    sites = [i for i in faults.constrained_sites(L, case) if case.spans[i][0] < len(case.data) // 2]
+    if not sites or len(case.meta.get("messages", [])) < 2:
+        return
+    i = sites[len(case.data) % len(sites)]
+    outs = L.outside_values(case.tokens[i][1])
+    if not outs:
+        return
+    data = faults.patch(L, case, {i: outs[len(case.data) % len(outs)]})
+    for d in (None, "pcapng", "hex", "swtpm", "files", "generator"):
+        O.reset_state()
+        obs = O.run_decode("CommandResponseStream", data, strict=True, delivery=d)
+        if d is not None and obs.delivery is None:
+            continue  # the container does not apply to this input
+        ctx.case(("stream-container", d, data), True, sample={"type": "CommandResponseStream", "delivery": d or "bytes", "error": obs.outcome["kind"], "remaining": len(obs.outcome.get("remaining") or b"")} if d == "pcapng" else None)
+        ctx.count(f"stream-container:{d or 'bytes'}")
+        p = accounting_problem(L, data, obs)
+        if p:
+            ctx.problem(f"C13:{p[0]}", f"{p[1]}; stream {data.hex()[:300]} handed over as {d or 'bytes'} ({case.tokens[i][0]} -> out of range)", payload_of("CommandResponseStream", data, None, False, delivery=d))
+            return
+
+
 def synthetic_part(ctx, max_len):
     LS = synthetic.extended_layout(layout())
     for t in synthetic.TOP_TYPES:
@@ -155,6 +179,7 @@ def run_shard(ctx):
     ):
         ctx.run_given(st.tuples(strat, tail), body, ctx.share(n), name=name)
 
+    ctx.run_given(gen.streams(L, max_pairs=3, lone_tail=False, rare=False), lambda c: stream_containers(ctx, L, c), ctx.share(200 if q else 3000), name="stream-containers")
     # deferred reads of kept errors, and faults in front of 70 000 further bytes (judged outside hypothesis)
     collected = []
 
@@ -179,6 +204,12 @@ def run_shard(ctx):
 
 def replay(ctx, payload):
     L = synthetic.extended_layout(layout()) if "SYN" in payload["type"] else layout()
+    if payload.get("delivery"):
+        obs = O.run_decode(payload["type"], payload["data"], strict=True, delivery=payload["delivery"])
+        p = accounting_problem(L, payload["data"], obs)
+        if p:
+            ctx.problem(f"C13:{p[0]}", f"{p[1]}; handed over as {payload['delivery']}", payload)
+        return
     if payload.get("deferred"):
         print("deferred-read findings depend on the batch of decodes before the read: re-run the check with the same VERIF_SEED")
     judge(ctx, L, payload["type"], payload["data"], payload.get("cc"), payload.get("enc"))
